@@ -140,7 +140,8 @@ def run_pair(cases_text, tag, timeout=600, mem_kb=8000000, sides=("impl", "model
         # the output goes to a file of bounded size: an operation that never stops delivering rows (a cycle the depth
         # limit misses) must end as "died in case X" (SIGXFSZ / timeout), not as an out-of-memory kill of the check itself
         outf = os.path.join(WORK, "%s.%s.out" % (tag, name))
-        cap_kb = int(os.environ.get("VERIF_OUT_CAP_KB", "250000"))
+        # (62 GB of memory here; the thorough tier's batches are several times larger than the quick tier's)
+        cap_kb = int(os.environ.get("VERIF_OUT_CAP_KB", "600000" if os.environ.get("VERIF_TIER", "") != "thorough" and "thorough" not in sys.argv else "2500000"))
         cmd = "ulimit -v %d; ulimit -s unlimited 2>/dev/null; exec %s < %s > %s" % (mem_kb, exe, cf, outf)
         def slurp():
             try:
